@@ -173,15 +173,121 @@ fn in_child() -> bool {
 }
 
 /// Judge one decoder call.
+/// The first head, in structural (reading) order, that declares more than 2^31 items / bytes:
+/// "string-head" (byte or text string: the allocation happens inside cbor_event) or
+/// "container-head" (array or map: cbor_event allocates nothing for these, so an allocation of
+/// that length is the library's own).
+fn first_huge_head(input: &[u8]) -> Option<&'static str> {
+    fn walk(b: &[u8], pos: &mut usize, depth: usize, found: &mut Option<&'static str>) -> bool {
+        if found.is_some() || depth > 300 || *pos >= b.len() {
+            return false;
+        }
+        let h = b[*pos];
+        let (major, info) = (h >> 5, h & 0x1f);
+        *pos += 1;
+        let arg: Option<u64> = match info {
+            0..=23 => Some(info as u64),
+            24 | 25 | 26 | 27 => {
+                let w = 1usize << (info - 24);
+                if *pos + w > b.len() {
+                    return false;
+                }
+                let mut v = 0u64;
+                for k in 0..w {
+                    v = (v << 8) | b[*pos + k] as u64;
+                }
+                *pos += w;
+                Some(v)
+            }
+            31 => None,
+            _ => return false,
+        };
+        match major {
+            0 | 1 => true,
+            2 | 3 => match arg {
+                Some(n) => {
+                    if n > (1 << 31) {
+                        *found = Some("string-head");
+                        return false;
+                    }
+                    *pos = (*pos).saturating_add(n as usize);
+                    *pos <= b.len()
+                }
+                None => {
+                    while *pos < b.len() && b[*pos] != 0xff {
+                        if !walk(b, pos, depth + 1, found) {
+                            return false;
+                        }
+                    }
+                    *pos += 1;
+                    true
+                }
+            },
+            4 | 5 => {
+                let per = if major == 4 { 1 } else { 2 };
+                match arg {
+                    Some(n) => {
+                        if n > (1 << 31) {
+                            *found = Some("container-head");
+                            return false;
+                        }
+                        for _ in 0..n.saturating_mul(per) {
+                            if !walk(b, pos, depth + 1, found) {
+                                return false;
+                            }
+                        }
+                        true
+                    }
+                    None => {
+                        while *pos < b.len() && b[*pos] != 0xff {
+                            if !walk(b, pos, depth + 1, found) {
+                                return false;
+                            }
+                        }
+                        *pos += 1;
+                        true
+                    }
+                }
+            }
+            6 => walk(b, pos, depth + 1, found),
+            _ => true,
+        }
+    }
+    let mut found = None;
+    let mut pos = 0;
+    walk(input, &mut pos, 0, &mut found);
+    found
+}
+
+/// the child process notes, before calling the decoder, which kind of head the input declares,
+/// so that an abort (which leaves no other trace) can be attributed precisely
+fn note_class_in_child(kind: &str) {
+    use std::io::Write;
+    if let (Ok(path), Ok(idx)) = (std::env::var("C02_PROGRESS_FILE"), CHILD_INDEX.lock()) {
+        if let Ok(mut f) = std::fs::OpenOptions::new().append(true).open(path) {
+            let _ = writeln!(f, "CLASS {} {}", *idx, kind);
+        }
+    }
+}
+static CHILD_INDEX: Mutex<usize> = Mutex::new(0);
+
 fn judge(ctx: &mut Ctx, d: &Dec, input: &[u8], family: &str) {
     if risky(input) && !in_child() {
         ctx.hit("quarantined-to-child-process");
         QUARANTINE.lock().unwrap().push((SCENARIO.with(|s| s.get()), ctx.choices()));
         return;
     }
+    let huge = if risky(input) { Some(first_huge_head(input).unwrap_or("string-head")) } else { None };
+    if let (Some(k), true) = (huge, in_child()) {
+        note_class_in_child(k);
+    }
     ctx.compared();
     match (d.bytes)(input) {
         DecOutcome::Rejected => ctx.hit("rejected"),
+        DecOutcome::Panicked(p) if huge.is_some() && p.msg.contains("capacity overflow") => ctx.violation(
+            format!("{}/declared-length/{}/panic@{}/{}::from_bytes", P, huge.unwrap(), crate::engine::short_file(&p.file), d.name),
+            format!("[{}] input {} : {} ({}:{})", family, short(&hx(input), 300), p.msg, p.file, p.line),
+        ),
         DecOutcome::Panicked(p) => ctx.violation(panic_sig(P, &format!("{}::from_bytes", d.name), &p), format!("[{}] input {} : {} ({}:{})", family, short(&hx(input), 300), p.msg, p.file, p.line)),
         DecOutcome::Accepted(Err(p)) => ctx.violation(panic_sig(P, &format!("{}::to_bytes(after from_bytes)", d.name), &p), format!("[{}] input {} : {}", family, short(&hx(input), 300), p.msg)),
         DecOutcome::Accepted(Ok(out)) => {
@@ -940,12 +1046,14 @@ pub fn child_main(args: &[String]) -> i32 {
     let vectors = std::fs::read_to_string(&args[0]).unwrap_or_default();
     let start: usize = args[2].parse().unwrap_or(0);
     let mut f = std::fs::OpenOptions::new().create(true).append(true).open(&args[1]).unwrap();
+    std::env::set_var("C02_PROGRESS_FILE", &args[1]);
     for (i, line) in vectors.lines().enumerate().skip(start) {
         let mut it = line.splitn(2, ' ');
         let scen = it.next().unwrap_or("");
         let choices: Vec<u32> = it.next().unwrap_or("").split(',').filter(|x| !x.is_empty()).map(|x| x.parse().unwrap()).collect();
         writeln!(f, "START {}", i).unwrap();
         f.flush().unwrap();
+        *CHILD_INDEX.lock().unwrap() = i;
         let sc = match scenario(scen, Tier::Quick) {
             Some(s) => s,
             None => continue,
@@ -1018,7 +1126,15 @@ fn run_quarantine(rep: &mut Report) {
                     let mut open: Option<usize> = None;
                     let mut viols: BTreeMap<usize, Vec<(String, String)>> = BTreeMap::new();
                     let mut done: Vec<(usize, u64)> = Vec::new();
+                    let mut class: BTreeMap<usize, String> = BTreeMap::new();
                     for line in log.lines() {
+                        if let Some(r) = line.strip_prefix("CLASS ") {
+                            let mut it = r.split(' ');
+                            if let (Some(i), Some(k)) = (it.next().and_then(|x| x.parse().ok()), it.next()) {
+                                class.insert(i, k.to_string());
+                            }
+                            continue;
+                        }
                         if let Some(r) = line.strip_prefix("START ") {
                             open = r.parse().ok();
                         } else if let Some(r) = line.strip_prefix("DONE ") {
@@ -1042,7 +1158,8 @@ fn run_quarantine(rep: &mut Report) {
                     }
                     let finished = status.map(|s| s.success()).unwrap_or(false);
                     if let Some(i) = open {
-                        out.push((lo + i, vec![], true, 1));
+                        // the aborted input: its class travels as a pseudo violation entry
+                        out.push((lo + i, vec![("ABORT-CLASS".to_string(), class.get(&i).cloned().unwrap_or_else(|| "string-head".to_string()))], true, 1));
                         cur = i + 1;
                     } else if finished {
                         cur = n;
@@ -1067,10 +1184,12 @@ fn run_quarantine(rep: &mut Report) {
         st.outcomes.insert(crate::engine::hash64(&(&q[gi], aborted, viols.len())));
         *st.hits.entry(if aborted { "child-aborted" } else { "child-returned" }).or_insert(0) += 1;
         let mut all = viols;
+        let abort_class = all.iter().find(|v| v.0 == "ABORT-CLASS").map(|v| v.1.clone()).unwrap_or_else(|| "string-head".to_string());
+        all.retain(|v| v.0 != "ABORT-CLASS");
         if aborted {
             // which decoder: recover the sample by re-running the generator part only is not
             // possible without executing the call; name the scenario and keep the vector
-            all.push((format!("{}/abort/declared-length-allocation", P), format!("the process aborted (allocation of a declared length) on scenario {} choices {:?}", q[gi].0, q[gi].1)));
+            all.push((format!("{}/declared-length/{}/abort", P, abort_class), format!("the process aborted (allocation of a declared length) on scenario {} choices {:?}", q[gi].0, q[gi].1)));
         }
         for (sig, detail) in all {
             let e = st.viols.entry(sig).or_insert(crate::engine::VRec { count: 0, scenario: q[gi].0.to_string(), choices: q[gi].1.clone(), arities: vec![], detail });
